@@ -66,6 +66,7 @@ let run (hist : string) (impl : string) =
             if w = "PANIC" then fail "C25" "e2e-panics" 0 x;
             if w = "LEAK" then (fail "C28" "goroutine-leak-or-hang" 0 x)) xs;
         let y = ref (sys_init hst.ecfg) in
+        let has_dup = List.exists (fun f -> f = FDup) (hst.ecfg.e_c2g @ hst.ecfg.e_g2c) in
         let mon = ref Chk_e2e.hinit in
         let ievs = Array.of_list ievs in
         let mends = ref [] and iends = ref [] in
@@ -85,6 +86,11 @@ let run (hist : string) (impl : string) =
             (* correspondence, channel by channel *)
             List.iter (fun c ->
                 let a = chan c m and b = chan c i in
+                (* a duplicated datagram puts two chains of reactions in flight at one virtual instant: which of
+                   them writes first is up to the Go scheduler (the model's work list is FIFO).  In histories with
+                   a duplication fault the packets of one instant on one channel are compared as a multiset *)
+                let (a, b) = if has_dup then (List.stable_sort (fun (x : line) z -> compare (x.t, x.text) (z.t, z.text)) a,
+                                              List.stable_sort (fun (x : line) z -> compare (x.t, x.text) (z.t, z.text)) b) else (a, b) in
                 let rec cmp a b =
                   match a, b with
                   | [], [] -> ()
